@@ -888,6 +888,12 @@ func TestReplay(t *testing.T) {
 			t.Fatal(err)
 		}
 		checkFault(t, c)
+	case "TestBigOffsets":
+		if msg := pinnedBig(r.Case); msg != "" {
+			var c BigCase
+			_ = json.Unmarshal(r.Case, &c)
+			ev.Failf(t, "TestBigOffsets", c, "%s", msg)
+		}
 	default:
 		var c ReopenCase
 		if err := json.Unmarshal(r.Case, &c); err != nil {
